@@ -292,7 +292,7 @@ def matches(finding, pid, pred, facts):
     return True
 
 
-def triage(pid, bads, traces, scen_files, extra_facts=None):
+def triage(pid, bads, traces, scen_files, extra_facts=None, executor=None, monitor=None):
     """Splits monitor failures into known findings and violations; writes replay files for violations.
     Returns (violations=[dict], known=[(finding, count)])."""
     known = load_known()
@@ -333,7 +333,7 @@ def triage(pid, bads, traces, scen_files, extra_facts=None):
         scen = scen_by.get(v["sc"])
         path = os.path.join(REPLAYS, f"{pid}-sc{v['sc']}-n{v['n']}-{v['pred']}.json")
         json.dump({"property": pid, "predicate": v["pred"], "at_event": v["n"], "facts": v["facts"],
-                   "scenario": scen, "trace": v["slice"],
+                   "scenario": scen, "trace": v["slice"], "executor": executor, "monitor": monitor,
                    "rerun": f"bin/check replay {path}"}, open(path, "w"), indent=1)
         v["replay"] = path
         out.append(v)
@@ -377,38 +377,64 @@ def sample_traces(traces, k=2, maxev=12):
 
 
 # --------------------------------------------------------------------------- conform mode (TraceFlw.tla)
-CONF_OPS = {"Start", "Log", "Trigger", "Flush", "Stop", "Adv", "ExtRemove"}
+CONF_OPS = {"Start", "Log", "Trigger", "Flush", "Stop", "Adv", "ExtRemove", "ExtRename", "Reopen", "Reset"}
+CONF_FMTS = (None, "r%Y-%m-%d_%H-%M-%S", "r%Y-%m-%d_%H-%M", "r%Y%m%d-%H%M%S", "r%Y-%m-%d_%H", "r%Y-%m-%d")
+
+
+def _conf_cfg(c, base=None):
+    m = dict(base or {})
+    m.update(c)
+    if m.get("mode", "direct") not in ("direct", "buf") or m.get("crlf") or m.get("bg") or m.get("via", "logger") != "logger":
+        return False
+    if m.get("use_ts") or "." in str(m.get("suffix", "")) or m.get("addw") or m.get("link"):
+        return False
+    if m.get("naming") in ("TsC", "TsCD") and m.get("fmt") not in CONF_FMTS:
+        return False
+    return True
 
 
 def conformable(s):
-    """Is the scenario inside the domain of TraceFlw.tla (the part of the file writer that Flw.tla specifies
-    step by step)?"""
+    """Is the scenario inside the domain of TraceFlw.tla, i.e. the part of the file writer that Flw.tla specifies
+    step by step (synchronous write modes, the model's environment discipline: family files are removed only between
+    runs; after the current file was renamed/removed under a live writer the next call is reopen_output)?"""
     c = s.get("cfg", {})
-    if c.get("mode", "direct") not in ("direct", "buf") or c.get("crlf") or c.get("bg") or c.get("via", "logger") != "logger":
+    if not _conf_cfg(c) or s.get("resume") or s.get("virt") is False:
         return False
-    if c.get("use_ts") or "." in str(c.get("suffix", "")) or c.get("addw") or s.get("resume") or s.get("virt") is False:
-        return False
-    if c.get("naming") in ("TsC", "TsCD") and c.get("fmt") not in (None, "r%Y-%m-%d_%H-%M-%S", "r%Y-%m-%d_%H-%M", "r%Y%m%d-%H%M%S",
-                                                                      "r%Y-%m-%d_%H", "r%Y-%m-%d"):
-        return False
-    if c.get("rot", True) and c.get("size", -1) < 0 and not c.get("age"):
-        pass
+    live = wrote = need = False
     for st in s.get("steps", []):
-        if st.get("op") not in CONF_OPS:
+        op = st.get("op")
+        if op not in CONF_OPS:
             return False
-        if st.get("op") == "Log" and (st.get("msg") is not None or st.get("target") is not None or st.get("lvl")):
+        if need and op not in ("Reopen", "Adv"):
             return False
-        if st.get("op") == "ExtRemove" and st.get("which") == "cur":
-            pass
-    # the environment removes files only between runs in Flw.tla
-    live = False
-    for st in s.get("steps", []):
-        if st["op"] == "Start":
-            live = True
-        elif st["op"] == "Stop":
-            live = False
-        elif st["op"] == "ExtRemove" and live:
-            return False
+        if op == "Log":
+            if st.get("msg") is not None or st.get("target") is not None or st.get("lvl") or st.get("nomod"):
+                return False
+            wrote = live
+        elif op == "Start":
+            if live:
+                return False
+            live, wrote = True, False
+        elif op == "Stop":
+            live = wrote = False
+        elif op == "ExtRemove":
+            if live and not (st.get("which", "cur") == "cur" and wrote):
+                return False
+            if live:
+                need = True
+        elif op == "ExtRename":
+            if not (live and wrote and st.get("which", "cur") == "cur"):
+                return False
+            need = True
+        elif op == "Reopen":
+            if not live:
+                return False
+            need = False
+        elif op == "Reset":
+            rc = st.get("cfg", {})
+            if not live or not _conf_cfg({k: v for k, v in rc.items() if k != "full"}, None if rc.get("full") else c):
+                return False
+            wrote = False
     return True
 
 
